@@ -47,7 +47,7 @@ USES = {
     'a_B': ['r1'], 'b_A': ['r1'], 'setA_B': ['r1'], 'genA_B': ['r1'], 'listB_A': ['r1'],
     'a_B_succ': ['r1', 'r2'], 'b_prec_prec': ['r2'], 'b_succ': ['r2'], 'a_B_succ_A_B': ['r1', 'r2'],
     'a_D': ['r3'], 'd_A': ['r3'], 'a_L_D': ['r3'], 'l_A': ['r3'], 'setA_D_A': ['r3'],
-    'subtype': ['r4'], 'filter_gt': ['r1'], 'filter_eq': ['r1'], 'filter_order': ['r1'],
+    'subtype': ['r4'], 'hetero_XY_A': ['r4'], 'hetero_YX_A': ['r4'], 'filter_gt': ['r1'], 'filter_eq': ['r1'], 'filter_order': ['r1'],
     'none': [], 'invalid': [],
 }[T]
 SPACES = {'r1': r1_states(), 'r2': r2_states(), 'r3': r3_states(), 'r4': r4_states()}
@@ -201,6 +201,15 @@ def check(si: int, i: int, v0: int, v1: int, v2: int, thr: int) -> bool:
         if xtuml.navigate_subtype(None, 4) is not None:
             LAST_DIFF = ('subtype of None',); return False
         return True
+    elif T in ('hetero_XY_A', 'hetero_YX_A'):
+        # a handle mixing instances of different classes (two subtypes navigated to their common supertype)
+        hs = [P['X'][0], P['Y'][0]] if T == 'hetero_XY_A' else [P['Y'][0], P['X'][0]]
+        manyres = many(hs).A[4](); anyres = any_(xtuml.QuerySet(hs)).A[4]()
+        exp = []
+        for h in hs:
+            for a in ref.step([h], 'A', 'R4'):
+                if not any(a is z for z in exp):
+                    exp.append(a)
     elif T == 'filter_gt':
         manyres = many(ai).B[1](lambda sel: sel.v > thr); anyres = any_(ai).B[1](lambda sel: sel.v > thr)
         exp = [b for b in ref.step([ai], 'B', 'R1') if b.v > thr]
